@@ -162,7 +162,10 @@ impl<'p, 'a> Evaluator<'a, 'p> {
             }
         }
 
-        this.run()?;
+        if let Err(e) = this.run() {
+            this.revert_unfinished();
+            return Err(e);
+        }
 
         let output = match output_kind {
             OutputKind::Value => EvalOutput::Value(this.value_stack.pop().unwrap()),
@@ -202,7 +205,8 @@ impl<'p, 'a> Evaluator<'a, 'p> {
                         self.value_stack.push(value);
                     }
                     ThunkState::Pending(pending) => {
-                        self.state_stack.push(State::GotThunk(thunk));
+                        self.state_stack
+                            .push(State::GotThunk(thunk, pending.clone()));
                         match pending {
                             PendingThunk::Expr { expr, env } => {
                                 self.state_stack.push(State::Expr {
@@ -243,10 +247,11 @@ impl<'p, 'a> Evaluator<'a, 'p> {
                         return Err(self.report_error(EvalErrorKind::InfiniteRecursion));
                     }
                 },
-                State::GotThunk(thunk) => {
+                State::GotThunk(thunk, _) => {
                     let value = self.value_stack.last().unwrap();
                     thunk.set_done(value.clone());
                 }
+                State::ObjectAssertsChecked(_) => {}
                 State::DeepValue => {
                     #[inline]
                     fn might_need_deep(thunk: &ThunkData<'_>) -> bool {
@@ -1547,6 +1552,19 @@ impl<'p, 'a> Evaluator<'a, 'p> {
         Ok(())
     }
 
+    /// Called when evaluation fails: thunks and object assertions whose
+    /// evaluation did not finish must not stay marked as in progress / checked,
+    /// so a later evaluation gives the same outcome again.
+    fn revert_unfinished(&mut self) {
+        for state in self.state_stack.drain(..) {
+            match state {
+                State::GotThunk(thunk, pending) => thunk.restore_pending(pending),
+                State::ObjectAssertsChecked(object) => object.asserts_checked.set(false),
+                _ => {}
+            }
+        }
+    }
+
     #[inline]
     fn push_trace_item(&mut self, item: TraceItem<'p>) {
         self.state_stack.push(State::TraceItem(item));
@@ -1626,6 +1644,8 @@ impl<'p, 'a> Evaluator<'a, 'p> {
     fn check_object_asserts(&mut self, object: &GcView<ObjectData<'p>>) {
         if !object.asserts_checked.get() {
             object.asserts_checked.set(true);
+            self.state_stack
+                .push(State::ObjectAssertsChecked(object.clone()));
             let layer_iter = object
                 .super_layers
                 .iter()
